@@ -27,7 +27,7 @@ inline int odd_up(int p) { return (p % 2) ? p : p + 1; }
 void check_C02(Src &s, Ctx &ctx) {
     static const int fmap[] = {F_GLOBAL, F_SEQ, F_FOURIER, F_LOCALP, F_WAVE};
     int fam = fmap[s.weighted({7, 3, 3, 1, 1})];
-    SpecOpts so; so.fam_mask = 1u << fam; so.max_dims = 3; so.min_outs = 0; so.max_outs = 3; so.conformal = false; so.cap = cfg().tier ? 1000 : 300;
+    SpecOpts so; so.fam_mask = 1u << fam; so.max_dims = 3; so.min_outs = 0; so.max_outs = 3; so.conformal = false; so.cap = cfg().tier ? 450 : 300;
     GridState st; st.cap = so.cap; st.ctx = &ctx;
     st.spec = decode_spec(s, so);
     int exotic = -1;
